@@ -119,8 +119,9 @@ func RunSQ(p SQPlan) (v hk.Verdict) {
 
 	pwg.Wait()
 
-	// everything put has been accepted: wait until the queue is empty and nothing is held (bounded)
-	deadline := time.Now().Add(10 * time.Second)
+	// everything put has been accepted: wait until the workers have gone idle (nothing held, no delivery for a while)
+	idleSince, lastN := time.Now(), -1
+	deadline := time.Now().Add(5 * time.Second)
 
 	for {
 		mu.Lock()
@@ -129,31 +130,26 @@ func RunSQ(p SQPlan) (v hk.Verdict) {
 			busy += h
 		}
 
-		done := busy == 0 && q.Len() == 0
+		n := ndeliv
 		mu.Unlock()
 
-		if done {
-			// Len may run ahead of a hand-out in flight: look twice
-			time.Sleep(2 * time.Millisecond)
+		if busy > 0 || n != lastN {
+			idleSince, lastN = time.Now(), n
+		}
 
-			mu.Lock()
-			busy = 0
-			for _, h := range holding {
-				busy += h
-			}
+		// normally the queue says when it is empty; a queue that miscounts is given a long quiet second instead
+		if busy == 0 && q.Len() == 0 && time.Since(idleSince) > 2*time.Millisecond {
+			break
+		}
 
-			done = busy == 0 && q.Len() == 0
-			mu.Unlock()
-
-			if done {
-				break
-			}
+		if time.Since(idleSince) > time.Second {
+			break
 		}
 
 		if time.Now().After(deadline) {
 			v.Inconclusive = true
 
-			v.Label("queue-did-not-drain-in-time")
+			v.Label("workers-did-not-go-idle-in-time")
 
 			close(stop)
 			wwg.Wait()
@@ -162,6 +158,16 @@ func RunSQ(p SQPlan) (v hk.Verdict) {
 		}
 
 		time.Sleep(200 * time.Microsecond)
+	}
+
+	// idle workers wait on Get: whatever the queue still counts is not pending for anybody
+	if l := q.Len(); l != 0 {
+		close(stop)
+		wwg.Wait()
+
+		v.Failf("the queue reports length %d although every worker is idle waiting for items and all producers are done", l)
+
+		return v
 	}
 
 	close(stop)
